@@ -138,16 +138,12 @@ def run_fault(ps, w, menu, nerr=1, pinned=None):
             bad.append(("C13:reported-success-where-the-fault-free-call-is-rejected", ""))
     else:
         if isinstance(call, (step.StoreObj, step.Tag)):
-            # "the pid is unbound and can be stored again at once (or its earlier binding is intact)"
+            # "the pid is unbound and can be stored again at once (or its earlier binding is intact)": a pid that was
+            # unbound stays unbound (and the retry below must succeed), a pid that was bound keeps its binding
             oku, _ = ps.valid(post["bind"][i] == pre["bind"][i])
             nob += 1
             if not oku:
-                okn, _ = ps.valid(post["bind"][i] == -1)
-                if okn:
-                    need_retry = True          # earlier binding gone: acceptable only if it can be stored again at once
-                    observations.append("failed call removed the pid's earlier binding (pid unbound afterwards)")
-                else:
-                    bad.append(("C13:failed-call-left-pid-binding-changed", ""))
+                bad.append(("C13:failed-call-left-pid-binding-changed", ""))
         if isinstance(call, step.StoreMeta):
             c = w.cell(call.f)
             okm, _ = ps.valid(post["meta"][i][c] == pre["meta"][i][c])
